@@ -16,6 +16,7 @@ CONSTANTS
   CloseConn = TRUE
   HasFallback = TRUE
   AllowClose = TRUE
+  RtoChanges = 0
   DeadlineTicks = FALSE
   OneAtATime = FALSE
   SafePool = TRUE
@@ -31,4 +32,5 @@ INVARIANT GoroutinesGone
 INVARIANT OnSchedule
 PROPERTY SilentAfterClose
 PROPERTY ClosedStartsRefused
+PROPERTY RtoSnapshot
 CHECK_DEADLOCK FALSE
